@@ -28,7 +28,7 @@ RULE = ("generated histories of 3-25 events over {connect request (established /
         "once or held back so that the connection is still being established when the next event arrives), peer close, disconnect "
         "request (only while up or being established), server reply, success, (failure, stream error and peer close optionally with the first "
         "bytes of a further, never completed frame in the same read), failure, stream error (conflict / ack / xml-not-well-formed, with or without text), keep-alive tick (virtual "
-        "clock, one second at a time), pong for a chosen outstanding ping, application send, loop runs} with options {reconnect on "
+        "clock, one second at a time), pong for a chosen outstanding ping, late pong for a ping of an earlier connection, application send, loop runs} with options {reconnect on "
         "stream error on/off, ping interval 1-3 s, passive}; the history is closed out (connection closed, loop run until no deferred "
         "callback is left) before the top-level counts are compared. Non-trivial = at least 2 established connections in the history, "
         "or a keep-alive decision (a tick with a ping outstanding, or a pong). Distinct = distinct canonical JSON.")
@@ -133,7 +133,7 @@ def _run(case, out, rig):
     reconnect_opt = bool(case.get("reconnect", True))
 
     m = {"state": "down", "authed": False, "pending_reconnect": False, "outstanding": [], "established": 0, "attempts": 0,
-         "successes": 0, "failures": 0, "stream_errors": 0, "keepalive_decision": False, "held": None, "cut_in_handshake": 0}
+         "successes": 0, "failures": 0, "stream_errors": 0, "keepalive_decision": False, "held": None, "cut_in_handshake": 0, "old_pings": []}
     late = list(case.get("late", []))
     rig.redundant_down = bool(case.get("redundant_down"))
     rig.connect_outcomes.extend(case.get("outcomes", []))   # consumed by the dispatcher double, one per connection attempt
@@ -252,6 +252,8 @@ def _run(case, out, rig):
     def went_down():
         m["state"] = "down"
         m["authed"] = False
+        m["old_pings"].extend(m["outstanding"])
+        m["outstanding"] = []
         if m["held"] is not None:
             m["held"] = None
             m["cut_in_handshake"] += 1
@@ -326,7 +328,7 @@ def _run(case, out, rig):
     for step, op in enumerate(case["ops"]):
         kind = op[0]
         expected_new = 0
-        if kind in ("success", "failure", "stream_error", "tick", "pong", "send", "server_reply"):
+        if kind in ("success", "failure", "stream_error", "tick", "pong", "stale_pong", "send", "server_reply"):
             if not ensure_handshake(step, op):
                 return out
         if kind == "server_reply":
@@ -439,6 +441,16 @@ def _run(case, out, rig):
             m["outstanding"] = []
             m["keepalive_decision"] = True
             out.label("pong")
+        elif kind == "stale_pong":
+            # the answer to a ping of an earlier connection arrives on the current one: it answers nothing that is awaited now
+            if m["state"] != "up" or not m["authed"] or not m["old_pings"]:
+                continue
+            pid = m["old_pings"][op[1] % len(m["old_pings"])]
+            server_stanza(("iq", {"type": "result", "id": pid, "from": "s.whatsapp.net"}, None))
+            if m["outstanding"]:
+                m["keepalive_decision"] = True
+                out.label("stale_pong_while_a_ping_is_outstanding")
+            out.label("stale_pong")
         elif kind == "send":
             from yowsup.layers.protocol_presence.protocolentities import AvailablePresenceProtocolEntity
             before = len(rig.server.frames)
@@ -514,17 +526,43 @@ def op_strategy():
         st.tuples(st.just("stream_error"), st.sampled_from(["conflict", "ack", "xml-not-well-formed"]), st.booleans(), _partial).map(list),
         st.just(["tick"]), st.just(["tick"]),
         st.tuples(st.just("pong"), st.integers(0, 3)).map(list),
+        st.tuples(st.just("stale_pong"), st.integers(0, 3)).map(list),
         st.just(["send"]), st.just(["close_and_send"]), st.just(["server_reply"]),
     )
 
 
-def case_strategy():
+def keepalive_ops_strategy():
+    """histories built from connection lives that stay logged in long enough for keep-alive decisions: connect, success, rounds
+    of (tick, maybe pong, maybe a late pong of an earlier connection, maybe a send), then one of the ways down"""
+    @st.composite
+    def build(draw):
+        ops = []
+        for life in range(draw(st.integers(1, 4))):
+            if life:
+                ops.append(["connect"])
+            ops.append(["success"])
+            for _ in range(draw(st.integers(0, 4))):
+                ops.append(["tick"])
+                r = draw(st.integers(0, 9))
+                if r <= 5:
+                    ops.append(["pong", draw(st.integers(0, 3))])
+                if r in (4, 5, 6, 7):
+                    ops.append(["stale_pong", draw(st.integers(0, 3))])
+                if r == 8:
+                    ops.append(["send"])
+            ops.append(draw(st.sampled_from([["peer_close", 0], ["disconnect"], ["tick"], ["stream_error", "ack", False, 0],
+                                             ["stream_error", "conflict", True, 0], ["close_and_send"]])))
+        return ops
+    return build()
+
+
+def case_strategy(ops=None):
     @st.composite
     def build_(draw):
         n = draw(st.sampled_from([0, 0, 30]))
         return {"sub": "history",
-                "ops": [["connect"]] + draw(st.lists(op_strategy(), min_size=2, max_size=24)),
-                "outcomes": draw(st.lists(st.sampled_from(["ok", "ok", "ok", "refused"]), min_size=0, max_size=6)),
+                "ops": [["connect"]] + (draw(st.lists(op_strategy(), min_size=2, max_size=24)) if ops is None else draw(ops)),
+                "outcomes": draw(st.lists(st.sampled_from(["ok", "ok", "ok", "refused"]), min_size=0, max_size=6)) if ops is None else [],
                 "reconnect": draw(st.booleans()),
                 "ping_interval": draw(st.integers(1, 3)),
                 "passive": draw(st.booleans()),
@@ -548,6 +586,8 @@ def _enum_basic():
                                                           ["peer_close"], ["connect"], ["success"], ["tick"]])
     yield dict(base, ops=[["connect"], ["failure", "401", 5], ["connect"], ["success"], ["stream_error", "ack", False, 2], ["success"], ["peer_close", 4],
                           ["connect"], ["success"], ["tick"]])
+    yield dict(base, ops=[["connect"], ["success"], ["tick"], ["peer_close"], ["connect"], ["success"], ["tick"], ["stale_pong", 0], ["tick"], ["loop"],
+                          ["connect"], ["success"], ["tick"], ["pong", 0], ["stale_pong", 1], ["tick"]])
     yield dict(base, late=[True, True], ops=[["connect"], ["close_and_send"], ["loop"], ["connect"], ["success"], ["stream_error", "ack", False], ["success"]])
 
 
@@ -556,7 +596,8 @@ def plan(tier):
     return {
         "shards": 16,
         "enumerations": [("basic_histories", _enum_basic)],
-        "strategies": [("histories", case_strategy(), 120 if quick else 3000)],
+        "strategies": [("histories", case_strategy(), 90 if quick else 2400),
+                       ("keepalive_histories", case_strategy(keepalive_ops_strategy()), 40 if quick else 1200)],
         "shrink": "ddmin",
         "budget_s": 170 if quick else 1800,
     }
